@@ -124,5 +124,90 @@ theorem no_self_sustaining_set (h : H) (hd : Decr h) (S : List Nat) (hne : S ≠
   have h2 := hle c' hc'
   omega
 
+
+/-! ### the stack machine keeps the arena invariant -/
+
+/-- heap invariant plus: every cell on the stack is an existing arena cell -/
+def MInv (m : M) : Prop :=
+  ArenaInv m.h ∧ Scoped m.h ∧ ∀ c ∈ m.stack, c ∈ m.h.arena ∧ c < m.h.kids.length
+
+theorem okKids_spec (m : M) (ks : List Nat) (h : okKids m ks = true) : ∀ d ∈ ks, d < m.h.kids.length := by
+  intro d hd
+  have := List.all_eq_true.mp h d hd
+  simpa using this
+
+theorem arena_alloc (h : H) (ks : List Nat) (b : Bool) (c : Nat) (hc : c ∈ h.arena) : c ∈ (alloc h ks b).arena := by
+  simp only [alloc]; split
+  · exact List.mem_cons_of_mem _ hc
+  · exact hc
+
+theorem step_inv (m : M) (st : Step) (hi : MInv m) : MInv (step m st) := by
+  obtain ⟨h1, h2, h3⟩ := hi
+  cases st with
+  | push ks =>
+    simp only [step]
+    split
+    · rename_i hk
+      obtain ⟨a1, a2⟩ := alloc_inv m.h ks true h1 h2 (okKids_spec m ks hk)
+      refine ⟨a1, a2, ?_⟩
+      intro c hc
+      have hlen : (alloc m.h ks true).kids.length = m.h.kids.length + 1 := by simp [alloc]
+      rcases List.mem_cons.mp hc with rfl | hc
+      · exact ⟨by simp [alloc], by rw [hlen]; omega⟩
+      · obtain ⟨b1, b2⟩ := h3 c hc
+        exact ⟨arena_alloc _ _ _ _ b1, by rw [hlen]; omega⟩
+    · exact ⟨h1, h2, h3⟩
+  | dup =>
+    simp only [step]
+    split
+    · exact ⟨h1, h2, h3⟩
+    · rename_i c t hs
+      refine ⟨h1, h2, ?_⟩
+      intro d hd
+      simp only at hd
+      rcases List.mem_cons.mp hd with rfl | hd
+      · exact h3 d (by rw [hs]; simp)
+      · exact h3 d hd
+  | pop =>
+    simp only [step]
+    exact ⟨h1, h2, fun c hc => h3 c (List.mem_of_mem_drop hc)⟩
+  | mutate i ks =>
+    simp only [step]
+    split
+    · rename_i c hc
+      split
+      · rename_i hk
+        have hmem : c ∈ m.stack := List.mem_of_getElem? hc
+        obtain ⟨a1, a2⟩ := mutate_inv m.h c ks h1 h2 (h3 c hmem).1 (okKids_spec m ks hk)
+        refine ⟨a1, a2, ?_⟩
+        intro d hd
+        have hlen : (mutate m.h c ks).kids.length = m.h.kids.length := by simp [mutate]
+        obtain ⟨b1, b2⟩ := h3 d hd
+        exact ⟨by simpa [mutate] using b1, by rw [hlen]; exact b2⟩
+      · exact ⟨h1, h2, h3⟩
+    · exact ⟨h1, h2, h3⟩
+  | aux ks =>
+    simp only [step]
+    split
+    · rename_i hk
+      obtain ⟨a1, a2⟩ := alloc_inv m.h ks false h1 h2 (okKids_spec m ks hk)
+      refine ⟨a1, a2, ?_⟩
+      intro c hc
+      have hlen : (alloc m.h ks false).kids.length = m.h.kids.length + 1 := by simp [alloc]
+      obtain ⟨b1, b2⟩ := h3 c hc
+      exact ⟨arena_alloc _ _ _ _ b1, by rw [hlen]; omega⟩
+    · exact ⟨h1, h2, h3⟩
+
+theorem init_inv : MInv {} := by
+  refine ⟨empty_inv.1, empty_inv.2, ?_⟩
+  intro c hc; simp at hc
+
+theorem foldl_inv : ∀ (steps : List Step) (m : M), MInv m → MInv (steps.foldl step m)
+  | [], m, h => h
+  | st :: t, m, h => foldl_inv t (step m st) (step_inv m st h)
+
+/-- every program of the five shapes keeps the invariant -/
+theorem run_inv (steps : List Step) : MInv (run steps) := foldl_inv steps {} init_inv
+
 end Heap
 end PFV
